@@ -73,7 +73,18 @@ def d_fail(x):
     a = inc(x)
     raise KeyError("user error inside the describing function")
 '''
-DAG_NAME = {"build_fail": "d_fail", "build": "d_build", "build2": "d_build2", "build_pause": "d_pause", "build_nest": "d_nest"}
+BUILD_SRC["build_fail_nested"] = '''
+@dag
+def flagged_inner(v, act):
+    return inc(v, twz_active=act)
+
+@dag
+def d_fail_nested(x):
+    a = inc(x)
+    # documented RuntimeError raised INSIDE the nested-DAG call (an inner node already has its own flag)
+    return flagged_inner(a, True, twz_active=a)
+'''
+DAG_NAME = {"build_fail_nested": "d_fail_nested", "build_fail": "d_fail", "build": "d_build", "build2": "d_build2", "build_pause": "d_pause", "build_nest": "d_nest"}
 
 NS: Dict[str, Any] = {}
 
@@ -143,6 +154,8 @@ SCENARIOS: Dict[str, List[List[tuple]]] = {
     "build||call||call": [[("build",)], [("call", 1)], [("call", 2)]],
     "build_pause||build||call": [[("build_pause",)], [("build",)], [("call", 2)]],
     "2ops": [[("build_pause",), ("call", 1)], [("call", 2), ("build2",)]],
+    "failed_nested_build_then_nest||call": [[("build_fail_nested",), ("build_nest",)], [("call", 2), ("build_nest",)]],
+    "call||bare": [[("call", 1)], [("bare", 3)]],
     "failed_build_then_call||build_pause": [[("build_fail",), ("call", 1), ("bare", 4)], [("build_pause",)]],
     "failed_build_then_build||build_pause": [[("build_fail",), ("build",)], [("build_pause",), ("call", 2)]],
 }
@@ -154,10 +167,13 @@ def cases(tier: str):
     for name in SCENARIOS:
         for beh in (BARE_BEHAVIOURS if "bare" in name else ["error"]):
             yield dict(scenario=name, behaviour=beh, mode="sync", preempt=2 if q else 3, part=0, parts=1)
+    for beh in ("error", "warning"):
+        # a bare call in one thread while a node of a running DAG executes in another: every source line is a switching point
+        yield dict(scenario="call||bare", behaviour=beh, mode="line", preempt=1, part=0, parts=1)
     # line-level preemption: sharded over the position of the first preemption
     parts = 8 if q else 16
     for name in SCENARIOS:
-        if q and name in ("2ops", "build_pause||build||call", "build||call||call", "build_pause||build2", "failed_build_then_build||build_pause", "failed_build_then_call||build_pause"):
+        if q and name in ("2ops", "build_pause||build||call", "build||call||call", "build_pause||build2", "failed_build_then_build||build_pause", "failed_build_then_call||build_pause", "failed_nested_build_then_nest||call", "call||bare"):
             continue
         for beh in (BARE_BEHAVIOURS[:1] + BARE_BEHAVIOURS[2:] if "bare" in name else ["error"]):
             for part in range(parts):
